@@ -34,7 +34,7 @@ BUDGET = {
 }
 FLOORS = {"merged": (800, 20000)}
 
-ZOO_NAMES = schemas.GROUP_V
+ZOO_NAMES = schemas.GROUP_V + schemas.MARK_VARIANTS
 
 
 def _apply_desc(lib, doc_node, desc):  # noqa: ANN001, ANN202
@@ -44,6 +44,12 @@ def _apply_desc(lib, doc_node, desc):  # noqa: ANN001, ANN202
         return None if r.failed else r.doc
     except Exception:  # noqa: BLE001
         return None
+
+
+def RR_all(doc: dict, rs):  # noqa: ANN001, ANN201, N802
+    from ..ref import resolve as RR
+
+    return RR.all_nodes(RR.N(doc, rs))
 
 
 def generate(R: Draw, tier: str) -> dict:
@@ -81,7 +87,24 @@ def generate(R: Draw, tier: str) -> dict:
         a = R.int(0, n)
         b = R.int(a, min(n, a + R.int(0, 8)))
         m1 = g.mark(R, R.choice(rs.mark_names))
-        m2 = m1 if R.bool(0.7) else g.mark(R, R.choice(rs.mark_names))
+        present = [(s_, k_.size, k_.p["m"]) for k_, s_, _par, _i, _d in RR_all(doc, rs) if k_.p["m"]]
+        if present and R.bool(0.6):
+            # marks that are really in the document, and a range on top of them
+            s_, z, ms = R.choice(present)
+            m1 = copy.deepcopy(R.choice(ms))
+            a = max(0, s_ - R.int(0, 2))
+            b = min(n, s_ + z + R.int(0, 2))
+        r = R.int(0, 9)
+        if r < 5:
+            m2 = m1
+        elif r < 8:
+            # same type, other attributes (only types with attributes can differ): two different marks of one type
+            m2 = g.mark(R, m1[0])
+            others = [copy.deepcopy(m) for _s, _z, ms in present for m in ms if m[0] == m1[0] and m != m1]
+            if others and R.bool(0.7):
+                m2 = R.choice(others)
+        else:
+            m2 = g.mark(R, R.choice(rs.mark_names))
         c = R.int(max(0, a - 4), min(n, b + 4))
         d = R.int(c, min(n, c + R.int(0, 8)))
         if R.bool(0.3):
@@ -89,6 +112,20 @@ def generate(R: Draw, tier: str) -> dict:
             d = R.int(c, min(n, c + R.int(0, 6)))
         k1 = R.choice(["addMark", "removeMark"])
         k2 = k1 if R.bool(0.8) else R.choice(["addMark", "removeMark"])
+        if m2 != m1 and m2[0] == m1[0] and R.bool(0.7):
+            # make the difference between the two marks visible: a textblock holding "ab"[m1] "cd"[m2] "ef" and two
+            # overlapping ranges over it
+            doc2 = copy.deepcopy(doc)
+            blocks = [(k_, s_) for k_, s_, _par, _i, _d in RR_all(doc2, rs) if rs.textblock.get(k_.t) and rs.allows_mark(k_.t, m1[0])]
+            if blocks:
+                k_, s_ = R.choice(blocks)
+                k_.p["c"] = [P.mk("text", {}, None, [copy.deepcopy(m1)], "ab"), P.mk("text", {}, None, [copy.deepcopy(m2)], "cd"), P.mk("text", {}, None, [], "ef")]
+                doc = doc2
+                p0 = s_ + 1
+                a = p0 + R.int(0, 1)
+                b = p0 + R.int(2, 4)
+                c = R.int(a, b)
+                d = p0 + R.int(max(c - p0, 3), 6)
         s1 = {"k": k1, "from": a, "to": b, "mark": m1}
         s2 = {"k": k2, "from": c, "to": d, "mark": m2}
     elif kind == "ops":
